@@ -34,7 +34,7 @@ ASSUMPTIONS = [
 
 INVALID = ["none"] * 12 + ["bad_yaml", "missing_file", "no_nodes", "unknown_processor", "unknown_param", "probe_no_key",
            "type_mismatch", "type_mismatch_across_ctx", "deleted_key", "missing_ctx_key", "use_before_create_missing", "create_and_require_missing",
-           "rs_mismatched", "rs_duplicate", "rs_missing_source", "rs_cap", "bad_set_key", "usage"]
+           "rs_mismatched", "rs_duplicate", "rs_duplicate_via_source", "rs_duplicate_via_source_first", "rs_missing_source", "rs_cap", "bad_set_key", "usage"]
 
 
 @st.composite
@@ -118,6 +118,7 @@ def build(case: Dict[str, Any]) -> Dict[str, Any]:
     fail_at = case["fail_at"] if (case["fail_at"] is not None and "divisor" in required) else None
     ctx_values: Dict[str, Any] = {"factor": 3.0, "divisor": 2.0, "idx": 0, "spare": 1.0, "addend": 1.0, "outdir": "o"}
     rs_keys: List[str] = []
+    files: Dict[str, str] = {}
     if n > 0:
         if fail_at is not None and fail_at >= n:
             fail_at = n - 1
@@ -136,6 +137,15 @@ def build(case: Dict[str, Any]) -> Dict[str, Any]:
             reject = {3}
         elif inv == "rs_duplicate":
             rs["blocks"].append({"mode": "by_position", "context": {rs_keys[0]: list(range(n))}})
+            reject = {3}
+        elif inv in ("rs_duplicate_via_source", "rs_duplicate_via_source_first"):
+            # the duplicate key arrives through a block's source file (the other block declares it inline)
+            files["dup.csv"] = rs_keys[0] + "\n" + "\n".join(str(i) for i in range(n)) + "\n"
+            blk = {"mode": "by_position", "source": {"format": "csv", "path": "dup.csv"}}
+            if inv == "rs_duplicate_via_source":
+                rs["blocks"].append(blk)
+            else:
+                rs["blocks"].insert(0, blk)
             reject = {3}
         elif inv == "rs_missing_source":
             rs["blocks"][0]["source"] = {"format": "csv", "path": "nope.csv"}
@@ -229,7 +239,7 @@ def build(case: Dict[str, Any]) -> Dict[str, Any]:
                                                               "rejected:" + inv if reject is not None else
                                                               "missing_key" if dropped is not None else
                                                               "dry" if (flags or yaml_dry) else "run_fail" if fail_at is not None else "run_ok")
-    return {"text": text, "argv": argv, "expected": exp, "nodes": nodes, "n_marker_ops": sum(1 for x in nodes if x["p"] == "VMarkerOp")}
+    return {"text": text, "argv": argv, "files": files, "expected": exp, "nodes": nodes, "n_marker_ops": sum(1 for x in nodes if x["p"] == "VMarkerOp")}
 
 
 def observe_dir(d: str) -> Dict[str, Any]:
@@ -246,6 +256,9 @@ def run_once(case: Dict[str, Any], b: Dict[str, Any], workroot: str, subprocess_
     try:
         with open(os.path.join(d, "p.yaml"), "w") as fh:
             fh.write(b["text"])
+        for name, text in (b.get("files") or {}).items():
+            with open(os.path.join(d, name), "w") as fh:
+                fh.write(text)
         res = clidrv.run_subprocess(b["argv"], d) if subprocess_mode else clidrv.run_inprocess(b["argv"], d)
         res["obs"] = observe_dir(d)
         return res
